@@ -1,5 +1,6 @@
 import XlModel.Bstr
 import XlModel.SaveGrid
+import XlModel.SaveCols
 import XlModel.Drv.Util
 /-
 Line protocol of C01 (see harness/cmd/vh/c01.go):
@@ -11,6 +12,8 @@ Line protocol of C01 (see harness/cmd/vh/c01.go):
   trim <grid>     trimRow                          -> ok <grid>
   dens <grid>     checkSheet; checkRow             -> ok <grid> | ERR | PANIC
   cycle <grid>    trimRow; (xml); checkSheet; checkRow
+  mcols <cols>    mergeExpandedCols (hook)         -> ok <cols>
+  hmcols <cols>   same; <cols> = a sheet's column definitions before a real save, answer = after OpenReader
   hcycle <grid>   same; the implementation side is a real save + open of a workbook
 
 Strings are hex of UTF-8 ("-" = empty); invalid UTF-8 is outside the property's
@@ -83,6 +86,29 @@ def showRes : Res (List Row) → String
   | .err => "E_REF"
   | .panic => "PANIC"
 
+def parseCols : Nat → List String → Option (List SaveCols.Col × List String)
+  | 0, w => some ([], w)
+  | n + 1, mn :: mx :: bf :: co :: cw :: hi :: ol :: ph :: st :: wd :: w =>
+    match mn.toNat?, mx.toNat?, p01 bf, p01 co, p01 cw, p01 hi, ol.toNat?, p01 ph, st.toNat?, optU wd with
+    | some mn, some mx, some bf, some co, some cw, some hi, some ol, some ph, some st, some wd =>
+      (parseCols n w).map fun (cs, w') => (⟨mn, mx, ⟨bf, co, cw, hi, ol, ph, st, wd⟩⟩ :: cs, w')
+    | _, _, _, _, _, _, _, _, _, _ => none
+  | _, _ => none
+
+def showCol (c : SaveCols.Col) : String :=
+  s!" {c.min} {c.max} {b01 c.a.bestFit} {b01 c.a.collapsed} {b01 c.a.customWidth} {b01 c.a.hidden} {c.a.outline} {b01 c.a.phonetic} {c.a.style} {showOpt c.a.width}"
+
+def showCols (l : List SaveCols.Col) : String := s!"{l.length}" ++ String.join (l.map showCol)
+
+def stepCols (w : List String) : String :=
+  match w with
+  | n :: rest => match n.toNat? with
+    | some n => match parseCols n rest with
+      | some (cs, []) => "ok " ++ showCols (SaveCols.mergeCols cs)
+      | _ => "bad-op"
+    | none => "bad-op"
+  | [] => "bad-op"
+
 def step (w : List String) : String :=
   match w with
   | ["bm", h] => match decodeU h with
@@ -106,6 +132,8 @@ def step (w : List String) : String :=
   | "cycle" :: g => match parseGrid g with
     | some rs => showRes (cycle rs)
     | none => "bad-op"
+  | "mcols" :: g => stepCols g
+  | "hmcols" :: g => stepCols g
   | "hcycle" :: g => match parseGrid g with
     | some rs => showRes (cycle rs)
     | none => "bad-op"
